@@ -190,6 +190,10 @@ impl<'tcx> Dumper<'tcx> {
             o.push(("track_caller", J::Bool(tc)));
             let never = tcx.fn_sig(did).skip_binder().output().skip_binder().is_never();
             o.push(("never", J::Bool(never)));
+            // functions whose arithmetic panics on overflow exactly when the CALLER is built with overflow checks
+            // (i64::abs, pow, Neg::neg on integers, ...)
+            let ioc = tcx.get_all_attrs(did).iter().any(|a| a.has_name(rustc_span::sym::rustc_inherit_overflow_checks));
+            o.push(("inherit_overflow_checks", J::Bool(ioc)));
         }
         if let Some(tr) = tcx.trait_of_assoc(did) {
             o.push(("trait", s(path_of(tcx, tr))));
